@@ -741,6 +741,19 @@ func raceMode(out *vk.Out, spec string, goroutines, handlers int) {
 		panic("race: unsupported target " + spec)
 	}
 
+	// a panic inside an occurrence is an observation, not a crash of the harness
+	var panics atomic.Int64
+	var panicMsg atomic.Value
+	rawFire := fireOnce
+	fireOnce = func() {
+		defer func() {
+			if r := recover(); r != nil {
+				panics.Add(1)
+				panicMsg.Store(fmt.Sprint(r))
+			}
+		}()
+		rawFire()
+	}
 	var done atomic.Bool
 	var wg sync.WaitGroup
 	for g := 0; g < goroutines; g++ {
@@ -777,7 +790,8 @@ func raceMode(out *vk.Out, spec string, goroutines, handlers int) {
 		h = append(h, [2]int{c, n})
 	}
 	out.Put(map[string]any{"target": spec, "goroutines": goroutines, "handlers": handlers,
-		"once_hist": h, "on_runs": onRuns.Load(), "occurrences": occurrences.Load()})
+		"once_hist": h, "on_runs": onRuns.Load(), "occurrences": occurrences.Load(),
+		"panics": panics.Load(), "panicmsg": fmt.Sprint(panicMsg.Load())})
 }
 
 func handlersMain(args []string) error {
